@@ -165,7 +165,7 @@ func genInventory(c *ctx) (string, error) {
 						site("slice", exprString(c, x), g.guardOfSlice(x, stack, fd), x.X)
 					case *ast.StarExpr:
 						if tv, ok := p.TypesInfo.Types[x]; ok && !tv.IsType() {
-							gd := g.guardOfDeref(x, stack)
+							gd := g.guardOfDeref(x, stack, fd)
 							if gd == "" && g.receiverNeverNil(x.X, fd) {
 								gd = "receiver-of-addressable-values"
 							}
